@@ -39,7 +39,7 @@ Failed ==
   \cup (IF HasPlan /\ R.direct # R.applied THEN {"OneCallApiDiffers"} ELSE {})
   \cup (IF HasPlan /\ R.rel = "del" /\ Covered(Q) # 0..(Size(n) - 1) THEN {"SurvivorsDel"} ELSE {})
   \cup (IF HasPlan /\ R.rel = "ins" /\ SrcCov(Q) # 0..(Size(o) - 1) THEN {"SurvivorsIns"} ELSE {})
-  \cup (IF R.cmp /\ HasPlan /\ Q # ImplDiff(o, n) THEN {"DiffersFromTranscription"} ELSE {})
+  \cup (IF HasPlan /\ InBounds(o, n, Q) /\ ~MaximalAtRoot(o, n, Q) THEN {"SurvivorDroppedNeedlessly"} ELSE {})
 
 Init == l = 1 /\ nfail = 0
 Step == /\ l <= Len(Rec)
